@@ -137,3 +137,70 @@ Qed.
 
 Lemma ws_message_disabled : ws_message 0 = [].
 Proof. reflexivity. Qed.
+
+(* ---- a disarmed direction is inert: its runtime events change nothing ---- *)
+Lemma disarmed_inert x s : timer x s = None -> no_pending x s -> step s (Fire x) = s /\ step s (Run x) = s.
+Proof.
+  intros Tm NP. unfold step. rewrite Tm. split; [reflexivity|]. now rewrite (take_none x (pend s) NP).
+Qed.
+
+(* ---- renewal against ALL interleavings of the runtime's events ----
+   [quiet x o]: o is a runtime event (Tick / Fire / Run of either direction) or a user operation that leaves x alone *)
+Definition quiet (x : dir) (o : op) : bool :=
+  match o with Tick _ | Fire _ | Run _ => true | _ => negb (touches x o) end.
+
+Definition Only (x : dir) (t : N) (s : st) : Prop :=
+  (timer x s = Some t \/ timer x s = None) /\
+  (forall dl, In (x, dl) (pend s) -> dl = t) /\
+  (forall dl T, closed s = Some (ByTimeout x dl, T) -> dl = t).
+
+Lemma quiet_timer x s o : quiet x o = true -> timer x (step s o) = timer x s \/ timer x (step s o) = None.
+Proof.
+  destruct s as [n r w p b c]; intro Q.
+  destruct o as [t0|t0|t0|y ka|f| | |d|y|y]; unfold quiet, touches in Q; simpl in Q; try discriminate;
+    unfold step, is_open, set_timer, do_close, timer; simpl.
+  - destruct c; simpl; [now left|]. destruct x; simpl in *; try discriminate; now left.
+  - destruct c; simpl; [now left|]. destruct x; simpl in *; try discriminate; now left.
+  - destruct c; simpl; [now left|]. destruct x, y; simpl in *; try discriminate; now left.
+  - destruct c; simpl; [now left|]. destruct x; simpl in *; try discriminate. destruct (b || negb f); now left.
+  - destruct c; simpl; destruct x; now left.
+  - destruct x; now left.
+  - destruct y; simpl; [destruct r as [d0|] | destruct w as [d0|]]; simpl; try (now left);
+      destruct (N.leb d0 n); simpl; destruct x; simpl; auto.
+  - destruct (take y p) as [[d0 rest]|]; simpl; [|now left].
+    destruct c; simpl; destruct x; simpl; auto.
+Qed.
+
+Lemma step_Only x t s o : quiet x o = true -> Only x t s -> Only x t (step s o).
+Proof.
+  intros Q (Tm & Pd & Cl). split; [|split].
+  - destruct (quiet_timer x s o Q) as [E|E]; rewrite E; [exact Tm | now right].
+  - intros dl Hin. apply step_pend in Hin as [Hin | (y & d0 & -> & E & Tm' & _)].
+    + now apply Pd.
+    + inversion E; subst. destruct Tm as [Tm|Tm]; rewrite Tm in Tm'; [now inversion Tm' | discriminate].
+  - intros dl T H. apply step_closed_timeout in H as [H | (_ & _ & Hin & _)].
+    + now apply (Cl dl T).
+    + now apply Pd.
+Qed.
+
+Lemma run_Only x t s h : Forall (fun o => quiet x o = true) h -> Only x t s -> Only x t (run s h).
+Proof.
+  revert s; induction h as [|o h IH]; intros s F O; simpl; [exact O|].
+  inversion F; subst. apply IH; [assumption|]. now apply step_Only.
+Qed.
+
+Lemma renew_all s o x t h dl T :
+  renews x t o -> t <> 0 -> closed s = None -> no_pending x s -> Inv s ->
+  Forall (fun o' => quiet x o' = true) h ->
+  closed (run (step s o) h) = Some (ByTimeout x dl, T) -> dl = t /\ t <= T.
+Proof.
+  intros R Nz C NP I F H.
+  destruct (renews_timer x t o s R Nz C) as (T1 & C1 & P1).
+  assert (O : Only x t (step s o)).
+  { split; [now left | split].
+    - intros d0 Hin. rewrite P1 in Hin. now elim (NP d0).
+    - intros d0 T0 H0. rewrite C1 in H0. discriminate. }
+  destruct (run_Only x t _ h F O) as (_ & _ & Cl). pose proof (Cl dl T H) as ->.
+  split; [reflexivity|].
+  destruct (run_Inv _ h (step_Inv s o I)) as (_ & _ & I3 & _). exact (I3 x t T H).
+Qed.
